@@ -186,6 +186,17 @@ Definition dec_obs (s : sexp) : option obs :=
   | _ => None
   end.
 
+(** the observations of a submission (one per API variant); [(same)] repeats the previous one *)
+Fixpoint dec_obs_list (prev : option obs) (l : list sexp) : option (list obs) :=
+  match l with
+  | [] => Some []
+  | x :: r =>
+      match (match tagged "same" x with Some [] => prev | _ => dec_obs x end) with
+      | Some o => match dec_obs_list (Some o) r with Some os => Some (o :: os) | None => None end
+      | None => None
+      end
+  end.
+
 Record sub := {
   s_transport : string; s_role : string; s_label : string;
   s_env : env; s_dec : dobs; s_obs : list obs;
@@ -202,7 +213,7 @@ Definition dec_raw (s : sexp) : bytes :=
 Definition dec_sub (s : sexp) : option sub :=
   match tagged "sub" s with
   | Some [t; r; l; e; d; SL os] =>
-      match as_sym t, as_sym r, as_sym l, dec_env e, dec_dobs d, map_opt dec_obs os with
+      match as_sym t, as_sym r, as_sym l, dec_env e, dec_dobs d, dec_obs_list None os with
       | Some t', Some r', Some l', Some e', Some d', Some os' =>
           Some {| s_transport := t'; s_role := r'; s_label := l'; s_env := e'; s_dec := d'; s_obs := os'; s_raw := dec_raw e |}
       | _, _, _, _, _, _ => None
